@@ -107,11 +107,12 @@ class Check:
         os.makedirs(os.path.join(VERIF, "evidence"), exist_ok=True)
         # report files
         paths = []
+        if not self.replay and os.path.isdir(self.report_dir):
+            for old in os.listdir(self.report_dir):
+                if old.endswith(".json"):
+                    os.unlink(os.path.join(self.report_dir, old))
         if self.violations:
             os.makedirs(self.report_dir, exist_ok=True)
-            for old in os.listdir(self.report_dir):
-                if old.endswith(".json") and not self.replay:
-                    os.unlink(os.path.join(self.report_dir, old))
             for i, v in enumerate(self.violations):
                 p = os.path.join(self.report_dir, "%d.json" % i)
                 with open(p, "w") as f:
